@@ -294,6 +294,16 @@ func corpusScale(c *vrep.Ctx, prop string) {
 	if c.Thorough() {
 		contexts = append(contexts, c07Context{200, 5, true}, c07Context{7, 0, true}, c07Context{1, 1, true})
 	}
+	if c.Param("contexts", "") == "pow2" {
+		// prefix lengths around the powers of two 512..8192 (block, chunk and table sizes): the copy
+		// starts 3 words before .. 1 word after each of them
+		contexts = nil
+		for _, b := range []int{512, 1024, 2048, 4096, 8192} {
+			for d := -3; d <= 1; d++ {
+				contexts = append(contexts, c07Context{b + d, 40, true})
+			}
+		}
+	}
 	if c.Param("contexts", "") == "huge" {
 		// unrelated blocks many times larger than the text (the target is then sparse in hits)
 		contexts = []c07Context{{10000, 5000, true}, {30000, 0, true}, {0, 30000, true}}
